@@ -250,7 +250,15 @@ pub fn run(ctx: &Ctx, rep: &mut Report) {
                 _ => textgen::text_from_keys(&mut rng, &keys, 7),
             };
             let mode = MODES[rng.below(3)];
-            cases.push_str(&serde_json::to_string(&expected_case(&world, &text, mode)).unwrap());
+            match guard(|| expected_case(&world, &text, mode)) {
+                Ok(v) => cases.push_str(&serde_json::to_string(&v).unwrap()),
+                Err(p) => {
+                    // the library's own accessors (surface, begin_c / end_c, split_into ...) panic on an analysis it accepted: then
+                    // the binding, which calls the same accessors, cannot report text[begin:end] == raw surface for it either
+                    rep.violation("python_code_point_slice", &p.site, &format!("the library's own accessors panic on an accepted analysis (the binding calls the same ones): {}", p.msg), "", json!({"text": text, "mode": mode_name(mode), "scenario": describe()}));
+                    continue;
+                }
+            }
             cases.push('\n');
         }
         if !threads_stage {
